@@ -516,6 +516,8 @@ func operationNameFor(rmid, info uint8, magic uint16) string {
 			return "ABORT_PREPARED"
 		case XLOG_XACT_ASSIGNMENT:
 			return "ASSIGNMENT"
+		case 0x60:
+			return "INVALIDATIONS"
 		}
 	case RM_XLOG_ID:
 		switch info & 0xF0 {
@@ -541,11 +543,13 @@ func operationNameFor(rmid, info uint8, magic uint16) string {
 			return "END_OF_RECOVERY"
 		case 0xA0:
 			return "FPI_FOR_HINT"
+		case 0xB0:
+			return "FPI"
 		case 0xD0:
 			return "OVERWRITE_CONTRECORD"
 		}
 	case RM_SMGR_ID:
-		switch info & 0x70 {
+		switch info & 0xF0 {
 		case 0x10:
 			return "CREATE"
 		case 0x20:
@@ -581,15 +585,62 @@ func operationNameFor(rmid, info uint8, magic uint16) string {
 			return "SPLIT_L"
 		case 0x40:
 			return "SPLIT_R"
+		case 0x50:
+			return "INSERT_POST"
 		case 0x60:
 			return "DEDUP"
 		case 0x70:
 			return "DELETE"
 		case 0x80:
 			return "UNLINK_PAGE"
+		case 0x90:
+			return "UNLINK_PAGE_META"
+		case 0xA0:
+			return "NEWROOT"
+		case 0xB0:
+			return "MARK_PAGE_HALFDEAD"
+		case 0xC0:
+			return "VACUUM"
+		case 0xD0:
+			return "REUSE_PAGE"
+		case 0xE0:
+			return "META_CLEANUP"
 		}
+	case RM_GENERIC_ID:
+		return "Generic"
+	}
+	op := info & 0xF0
+	if rmid == RM_BRIN_ID {
+		op = info & 0x70 // XLOG_BRIN_OPMASK; 0x80 is XLOG_BRIN_INIT_PAGE
+	}
+	if name, ok := otherOpNames[rmid][op]; ok {
+		return name
 	}
 	return fmt.Sprintf("op_0x%02X", info)
+}
+
+// otherOpNames: opcode names (PostgreSQL 12-16) of the resource managers operationNameFor has no switch for
+var otherOpNames = map[uint8]map[uint8]string{
+	RM_CLOG_ID:      {0x00: "ZEROPAGE", 0x10: "TRUNCATE"},
+	RM_TBLSPC_ID:    {0x00: "CREATE", 0x10: "DROP"},
+	RM_MULTIXACT_ID: {0x00: "ZERO_OFF_PAGE", 0x10: "ZERO_MEM_PAGE", 0x20: "CREATE_ID", 0x30: "TRUNCATE_ID"},
+	RM_RELMAP_ID:    {0x00: "UPDATE"},
+	RM_STANDBY_ID:   {0x00: "LOCK", 0x10: "RUNNING_XACTS", 0x20: "INVALIDATIONS"},
+	RM_HASH_ID: {0x00: "INIT_META_PAGE", 0x10: "INIT_BITMAP_PAGE", 0x20: "INSERT", 0x30: "ADD_OVFL_PAGE",
+		0x40: "SPLIT_ALLOCATE_PAGE", 0x50: "SPLIT_PAGE", 0x60: "SPLIT_COMPLETE", 0x70: "MOVE_PAGE_CONTENTS",
+		0x80: "SQUEEZE_PAGE", 0x90: "DELETE", 0xA0: "SPLIT_CLEANUP", 0xB0: "UPDATE_META_PAGE", 0xC0: "VACUUM_ONE_PAGE"},
+	RM_GIN_ID: {0x10: "CREATE_PTREE", 0x20: "INSERT", 0x30: "SPLIT", 0x40: "VACUUM_PAGE", 0x50: "DELETE_PAGE",
+		0x60: "UPDATE_META_PAGE", 0x70: "INSERT_LISTPAGE", 0x80: "DELETE_LISTPAGE", 0x90: "VACUUM_DATA_LEAF_PAGE"},
+	RM_GIST_ID: {0x00: "PAGE_UPDATE", 0x10: "DELETE", 0x20: "PAGE_REUSE", 0x30: "PAGE_SPLIT", 0x60: "PAGE_DELETE",
+		0x70: "ASSIGN_LSN"},
+	RM_SEQ_ID: {0x00: "LOG"},
+	RM_SPGIST_ID: {0x10: "ADD_LEAF", 0x20: "MOVE_LEAFS", 0x30: "ADD_NODE", 0x40: "SPLIT_TUPLE", 0x50: "PICKSPLIT",
+		0x60: "VACUUM_LEAF", 0x70: "VACUUM_ROOT", 0x80: "VACUUM_REDIRECT"},
+	RM_BRIN_ID: {0x00: "CREATE_INDEX", 0x10: "INSERT", 0x20: "UPDATE", 0x30: "SAMEPAGE_UPDATE", 0x40: "REVMAP_EXTEND",
+		0x50: "DESUMMARIZE"},
+	RM_COMMIT_TS_ID:  {0x00: "ZEROPAGE", 0x10: "TRUNCATE"},
+	RM_REPLORIGIN_ID: {0x00: "SET", 0x10: "DROP"},
+	RM_LOGICALMSG_ID: {0x00: "MESSAGE"},
 }
 
 // FormatLSN formats an LSN as PostgreSQL does (e.g., "0/1234ABC")
